@@ -418,6 +418,71 @@ func ruleCall(c *Ctx, mode string) *RuleResult {
 					// C18 only requires that functions applied to Go data do not panic
 					return
 				}
+				// provenance oracles of the function specification
+				for si, s := range succ {
+					if s.k != 'I' {
+						continue
+					}
+					elems := AV{}
+					if s.obj != 0 && succHeap[si].objs[s.obj] != nil {
+						ob := succHeap[si].objs[s.obj]
+						if ob.kind == 'a' {
+							elems = ob.join
+						} else {
+							for _, e := range ob.elems {
+								elems = joinAV(elems, e)
+							}
+						}
+					}
+					pv := string(s.prov)
+					switch name {
+					case "not_null":
+						want := ""
+						for i, a := range tuple {
+							if a != ANull {
+								want = fmt.Sprintf("arg#%d", i)
+								break
+							}
+						}
+						if want == "" && s.atoms != ANull {
+							v.bad = append(v.bad, fmt.Sprintf("%s must be null (all arguments are null), yields %s", x.label, s.atoms))
+						}
+						if want != "" && pv != want {
+							v.bad = append(v.bad, fmt.Sprintf("%s must return its first non-null argument %s, returns %s", x.label, want, orNone(pv)))
+						}
+					case "max_by", "min_by":
+						if s.atoms != ANull && pv != "elem(arg#0)" {
+							v.bad = append(v.bad, fmt.Sprintf("%s must return an element of its array argument, returns %s", x.label, orNone(pv)))
+						}
+					case "sort_by", "reverse":
+						// (reverse fills a pre-sized slice by index: that every slot is overwritten is index arithmetic, not decided)
+						if tuple[0]&AStrings == 0 && elems.k == 'I' && string(elems.prov) != "elem(arg#0)" && !(name == "reverse" && string(elems.prov) == "elem(arg#0)+zero") {
+							v.bad = append(v.bad, fmt.Sprintf("%s must return the elements of its array argument, returns elements %s", x.label, orNone(string(elems.prov))))
+						}
+					case "values":
+						if elems.k == 'I' && string(elems.prov) != "member(arg#0)" {
+							v.bad = append(v.bad, fmt.Sprintf("%s must return the members of its argument, returns %s", x.label, orNone(string(elems.prov))))
+						}
+					case "map":
+						if elems.k == 'I' {
+							for _, pp := range strings.Split(string(elems.prov), "+") {
+								if !strings.HasPrefix(pp, "res#") {
+									v.bad = append(v.bad, fmt.Sprintf("%s must return the results of the expression, returns %s", x.label, orNone(pp)))
+								}
+							}
+							if elems.atoms&ANull == 0 {
+								v.bad = append(v.bad, fmt.Sprintf("%s drops null results (map keeps them)", x.label))
+							}
+						}
+					case "to_array":
+						if tuple[0]&AArrays != 0 && pv != "arg#0" {
+							v.bad = append(v.bad, fmt.Sprintf("%s must return its array argument unchanged, returns %s", x.label, orNone(pv)))
+						}
+						if tuple[0]&AArrays == 0 && string(elems.prov) != "arg#0" {
+							v.bad = append(v.bad, fmt.Sprintf("%s must wrap its argument in a one-element array, contains %s", x.label, orNone(string(elems.prov))))
+						}
+					}
+				}
 				if nerr > 0 && !hypUsed {
 					v.bad = append(v.bad, fmt.Sprintf("%s is well typed but can return an error without any expression-reference evaluation", x.label))
 				}
